@@ -24,6 +24,10 @@ type solver struct {
 	dead     bool
 	lastErr  string
 	timeoutS int
+	// one-shot mode: every query is a fresh solver process fed with the current
+	// assertion stack (z3's non-incremental tactics decide FP queries far faster)
+	oneshot bool
+	frames  [][]string
 }
 
 // SolverError is panicked when the solver process misbehaves; the path is
@@ -58,6 +62,13 @@ func wrapDefs() []string {
 
 func newSolver(kind string, timeoutS int, log io.Writer) *solver {
 	var cmd *exec.Cmd
+	if kind == "z3-oneshot" || kind == "cvc5-oneshot" {
+		s := &solver{kind: kind, oneshot: true, timeoutS: timeoutS, log: log, frames: [][]string{nil}}
+		for _, d := range wrapDefs() {
+			s.send(d)
+		}
+		return s
+	}
 	switch kind {
 	case "z3", "":
 		kind = "z3"
@@ -92,6 +103,22 @@ func (s *solver) send(cmd string) {
 	if s.dead {
 		return
 	}
+	if s.oneshot {
+		if s.log != nil {
+			io.WriteString(s.log, cmd+"\n")
+		}
+		switch {
+		case strings.HasPrefix(cmd, "(push"):
+			s.frames = append(s.frames, nil)
+		case strings.HasPrefix(cmd, "(pop"):
+			if len(s.frames) > 1 {
+				s.frames = s.frames[:len(s.frames)-1]
+			}
+		default:
+			s.frames[len(s.frames)-1] = append(s.frames[len(s.frames)-1], cmd)
+		}
+		return
+	}
 	s.in.WriteString(cmd)
 	s.in.WriteByte('\n')
 	if s.log != nil {
@@ -119,9 +146,54 @@ func (s *solver) readLine() string {
 	}
 }
 
+func (s *solver) runOneShot(tail string) []string {
+	var sb strings.Builder
+	for _, f := range s.frames {
+		for _, l := range f {
+			sb.WriteString(l)
+			sb.WriteByte('\n')
+		}
+	}
+	sb.WriteString(tail)
+	var cmd *exec.Cmd
+	if s.kind == "cvc5-oneshot" {
+		cmd = exec.Command("cvc5", "--fp-exp", "--produce-models", "--lang=smt2", fmt.Sprintf("--tlimit=%d", s.timeoutS*1000))
+		cmd.Stdin = strings.NewReader("(set-logic ALL)\n" + sb.String())
+	} else {
+		cmd = exec.Command("z3", "-in", "-smt2", fmt.Sprintf("-T:%d", s.timeoutS))
+		cmd.Stdin = strings.NewReader(sb.String())
+	}
+	atomic.AddInt64(&solverSpawned, 1)
+	out, _ := cmd.Output()
+	var lines []string
+	for _, l := range strings.Split(string(out), "\n") {
+		l = strings.TrimSpace(l)
+		if l == "" {
+			continue
+		}
+		if strings.HasPrefix(l, "(error") {
+			panic(SolverError{"solver error: " + l})
+		}
+		lines = append(lines, l)
+	}
+	return lines
+}
+
 // checkSat runs (check-sat) and returns "sat", "unsat" or "unknown".
 func (s *solver) checkSat() (string, time.Duration) {
 	t0 := time.Now()
+	if s.oneshot {
+		lines := s.runOneShot("(check-sat)\n")
+		r := "unknown"
+		if len(lines) > 0 && (lines[0] == "sat" || lines[0] == "unsat") {
+			r = lines[0]
+		}
+		d := time.Since(t0)
+		if s.log != nil {
+			fmt.Fprintf(s.log, "; one-shot -> %s (%v)\n", r, d)
+		}
+		return r, d
+	}
 	s.send("(check-sat)")
 	r := s.readLine()
 	d := time.Since(t0)
@@ -140,6 +212,13 @@ func (s *solver) checkSat() (string, time.Duration) {
 
 // getValues returns the raw (get-value ...) answer as one string.
 func (s *solver) getValues(terms []string) string {
+	if s.oneshot {
+		lines := s.runOneShot("(check-sat)\n(get-value (" + strings.Join(terms, " ") + "))\n")
+		if len(lines) < 2 || lines[0] != "sat" {
+			panic(SolverError{"one-shot model query did not answer sat"})
+		}
+		return strings.Join(lines[1:], " ")
+	}
 	s.send("(get-value (" + strings.Join(terms, " ") + "))")
 	depth := 0
 	var sb strings.Builder
@@ -156,7 +235,7 @@ func (s *solver) getValues(terms []string) string {
 }
 
 func (s *solver) close() {
-	if s == nil || s.cmd == nil {
+	if s == nil || s.cmd == nil || s.oneshot {
 		return
 	}
 	s.dead = true
